@@ -176,6 +176,14 @@ def replace_funcname(source: str, name: str):
     return "\n".join(lines) + "\n"
 
 
+def _quote_docstring(docstr: str):
+    """Return a triple-quoted string literal whose value is ``docstr``"""
+    s = docstr.replace("\\", "\\\\")
+    if s.endswith('"'):
+        s = s[:-1] + '\\"'
+    return '"""' + s.replace('"""', '\\"\\"\\"') + '"""'
+
+
 def replace_docstring(source: str, docstr: str, insert_indents=False):
     """Replace docstring"""
     # lines = source.splitlines()
@@ -191,7 +199,7 @@ def replace_docstring(source: str, docstr: str, insert_indents=False):
         raise RuntimeError("FunctionDef not found")
 
     first_stmt = node.body[0]
-    docstr = '"""' + docstr + '"""'
+    docstr = _quote_docstring(docstr)
     prev_token = atok.tokens[first_stmt.first_token.index - 1]
 
     if prev_token.type == token.INDENT:     # compound statements
